@@ -138,7 +138,8 @@ class SdSimulation():
         """
 
         ## To avoid tail-recursion, start at 0 and use memoization to store the results and build results from the bottom
-        for i in timerange(start, until+self.mod.dt, self.mod.dt):
+        # inclusive range up to the stop time: until+dt in floats can land just above the next grid point and add a row
+        for i in timerange(start, until, self.mod.dt, exclusive=False):
             try:
                 result = self.mod.equation(equation, i)
             except KeyError:
